@@ -9,30 +9,17 @@
    format description alone. *)
 Require Import FstV.Base FstV.Pack FstV.Node FstV.Registry FstV.Builder FstV.GraphSem FstV.Format
                FstV.Fst FstV.CodecSpec FstV.Crc.
-Require Import FstV.proofs.BuilderInv FstV.proofs.EndToEnd FstV.ParamsTie.
+Require Import FstV.proofs.BuilderInv FstV.proofs.EndToEnd FstV.proofs.Closed FstV.ParamsTie.
 Require Import FstV.Properties.C01_builder.
 
 (* with the real checksum: the footer holds the masked CRC-32C (bitwise specification of C08)
    of all preceding bytes *)
-Theorem C09_conformance :
-  codec_statement -> compile_total_statement ->
-  forall (ty rows cols : N) (kvs : kmap),
-    kmap_ok kvs = true ->
-    Forall (fun kv => Forall (fun b => b < 256) (fst kv) /\ snd kv < U64) kvs ->
-    ty < U64 -> size_ok kvs ->
-    exists bs p,
-      build_map spec_masked_crc32c ty rows cols kvs = Ok bs /\
-      spec_parse bs = Some p /\ wf_fst_b bs = true /\
-      p_version p = 3 /\ p_ty p = ty /\ p_len p = len kvs /\ p_content p = kvs /\
-      p_checksum p = Some (spec_masked_crc32c (firstn (length bs - 4) bs)) /\
-      spec_read bs = Some (3, ty, kvs).
-Proof.
-  intros HC HT ty rows cols kvs H1 H2 H3 H5.
-  destruct (build_map_correct HC HT spec_masked_crc32c ty rows cols kvs H1 H2 H3 spec_masked_u32 H5)
-    as (bs & p & Hb & Hp & Hv & Hty & Hl & Hcont & Hck & Hwf).
-  exists bs, p. repeat split; try assumption.
-  unfold spec_read. rewrite Hp, Hwf, Hv, Hty, Hcont. reflexivity.
-Qed.
+Theorem C09_conformance : forall ty rows cols kvs,
+  input_ok kvs -> ty < U64 ->
+  exists bs p, build_map spec_masked_crc32c ty rows cols kvs = Ok bs /\
+    spec_read bs = Some (3, ty, kvs) /\ spec_parse bs = Some p /\ p_len p = len kvs /\
+    p_checksum p = Some (spec_masked_crc32c (firstn (length bs - 4) bs)).
+Proof. exact C09_closed. Qed.
 
 (* the tiling clause, made explicit: the node walk of a parsed file partitions [16, root] *)
 Fixpoint extents_from (first : N) (nodes : list (N * snode)) : option N :=
